@@ -206,6 +206,17 @@ def accessTokenOK (d : Deployment) (user scope : Str) (audiences : List Str) (ex
    | _ => false) &&
   (if audiences = [] then w .aud == none else w .aud == some (.strs (audiences ++ [d.userinfoURL])))
 
+/-! ## the published key set -/
+
+/-- `idpOpenIDCJWKSHandler`: one JWK per entry of `KeymasterPublicKeys`, whatever its type, with the
+key's fingerprint as `kid` (the same fingerprint the token endpoint puts into the `kid` header) -/
+def published (cfg : Cfg) : List Key := cfg.dep.trusted
+
+/-- what a relying party does with a token and a key set: the key named by the token (its `kid`)
+is in the set, is of the type the header algorithm belongs to, and made the signature -/
+def rpVerifies (keys : List Key) (a : Artefact) : Bool :=
+  keys.any (fun k => a.signedBy == some k.id && algOf k.ty == some a.alg && a.sigAlg == a.alg)
+
 /-! ## the property's predicate: when may tokens be released -/
 
 /-- the caller proved to be client `cl`: by its secret, or — public client — by the verifier matching
